@@ -122,6 +122,8 @@ class Dataset(AbstractDataset, dict, OpMixin, GetSetDelAttrMixin):
             raise TypeError("new dims must be iterable")
         if not len(newdims) == len(self.axes):
             raise ValueError("dimension mistmatch")
+        if len(set(newdims)) != len(newdims):
+            raise ValueError("duplicate dimension names: {}".format(list(newdims)))
 
         # update every element's dimension
         for i, newname in enumerate(newdims):
@@ -514,6 +516,8 @@ class Dataset(AbstractDataset, dict, OpMixin, GetSetDelAttrMixin):
         a: ('x0',)
         b: ('x0', 'x1')
         """
+        if name is not None and name != self.axes[axis].name and name in self.dims:
+            raise ValueError("dimension {!r} already exists".format(name))
         if not inplace: self = self.copy()
         self.axes[axis].set(values=values, inplace=True, name=name, **kwargs)
         if not inplace: return self
@@ -596,7 +600,12 @@ class Dataset(AbstractDataset, dict, OpMixin, GetSetDelAttrMixin):
             iterkeys = [(old, mapper(old)) for old in ds.dims]
 
         # look up all axes before renaming any (the mapping may permute names)
-        for ax, new in [(ds.axes[old], new) for old, new in iterkeys]:
+        pairs = [(ds.axes[old], new) for old, new in iterkeys]
+        renamed = dict((id(ax), new) for ax, new in pairs)
+        final = [renamed.get(id(ax), ax.name) for ax in ds.axes]
+        if len(set(final)) != len(final):
+            raise ValueError("duplicate dimension names: {}".format(final))
+        for ax, new in pairs:
             ax.name = new
 
         if not inplace:
